@@ -712,3 +712,11 @@ Fixpoint ranges_cover (r : list Z) (c : Z) : bool :=
   | a :: b :: t => ((a <=? c) && (c <? b)) || ranges_cover t c
   | _ => false
   end.
+
+(* every transition target is a state of the machine (hypothesis of the termination theorem) *)
+Definition set_bounded_b (n : nat) (S : sset) : bool := N.ltb S (2 ^ N.of_nat n).
+Definition nfa_bounded (m : nfa) : bool :=
+  Nat.ltb 0 (length m) &&
+  forallb (fun st => forallb (set_bounded_b (length m)) (tm_sets (n_tm st))
+                     && set_bounded_b (length m) (n_eps st) && set_bounded_b (length m) (n_bol st)
+                     && set_bounded_b (length m) (n_eol st) && set_bounded_b (length m) (n_eof st)) m.
